@@ -13,6 +13,9 @@ def run(ctx):
     t = system.record(ctx, "sys")
     system.validate(ctx, t, ["TrLife"], "general scenarios")
     system.engine_traces(ctx, t, "general scenarios")
+    t = system.record(ctx, "client", test="TestVerifClient")
+    system.validate(ctx, t, ["TrLife"], "client engines ended by Client.Stop")
+    system.engine_traces(ctx, t, "client engines")
     ctx.assumptions += system.SYS_ASSUME + ["bounded time is judged as: Run returns within 20 s of the request on an otherwise idle machine"]
     return vlib.finish(ctx, "model_checking",
                        "one case = one engine life ended by a shutdown request from {Engine.Stop, Stop, OnTick, OnOpen, OnTraffic, OnClose, OnBoot} x {reactor, reuse-port} with idle / active / just-being-accepted connections; every event validated by TrLife.tla (Run returns nil, all opened connections closed before it returns, OnShutdown once, nothing after return, OnBoot shutdown starts nothing); Engine.tla (acceptors, hand-off queues, shutdown sources, engine.stop, ticker) model-checked for safety and termination, and every recorded engine life validated against it (EngineTrace.tla)")
